@@ -120,6 +120,16 @@ class RefDeadline(RefBase):
             self.n_popped += 1
         return got, dropped
 
+    def purge(self, now_ns):
+        """explicit housekeeping: every expired entry leaves (counted), order of the rest untouched"""
+        dropped = [it for it in self.items if it["deadline_ns"] < now_ns]
+        self.items = [it for it in self.items if it["deadline_ns"] >= now_ns]
+        self.n_dropped += len(dropped)
+        return dropped
+
+    def count_expired(self, now_ns):
+        return sum(1 for it in self.items if it["deadline_ns"] < now_ns)
+
 
 class RefFair(RefBase):
     """round robin over backlogged flows; a flow joins the rotation at the
@@ -154,6 +164,10 @@ class RefFair(RefBase):
             ent = [it["flow"], []]
             self.rot.append(ent)
         ent[1].append(it)
+
+    def flow_depth(self, f):
+        ent = self._flow(f)
+        return len(ent[1]) if ent else 0
 
     def head(self, now_ns):
         return self.rot[0][1][0] if self.rot else None
@@ -204,6 +218,10 @@ class RefWFQ(RefBase):
             ent = [it["flow"], [], w, w]
             self.rot.append(ent)
         ent[1].append(it)
+
+    def flow_depth(self, f):
+        ent = self._flow(f)
+        return len(ent[1]) if ent else 0
 
     def head(self, now_ns):
         return self.rot[0][1][0] if self.rot else None
